@@ -95,28 +95,77 @@ fn guarded<T>(f: impl FnOnce() -> T) -> Result<T, PanicClass> {
     }
 }
 
-/// does `result` equal the bytes the RNG successfully delivered, in order, nothing skipped or left over?
-/// Byte-granular requests must be used completely; a word request (next_u32/next_u64) may be truncated to
-/// its low bytes (`as u8`-style narrowing is still "derived from the RNG output in little-endian order").
+/// is `result` the in-order concatenation of prefixes of the byte strings the RNG successfully delivered during
+/// the call? (Bytes that were never delivered — after an error, beyond a short request, from the buffer's old
+/// contents — can never appear; whether an implementation over-reads is R6's business, not R4's.)
 pub fn refines(result: &[u8], delivered: &[(Method, &[u8])]) -> bool {
-    fn go(result: &[u8], d: &[(Method, &[u8])]) -> bool {
-        if d.is_empty() {
-            return result.is_empty();
+    // Every request contributes a prefix of what it delivered (possibly all of it; for byte requests possibly
+    // nothing): narrowing a word (`as u8`) or over-reading and discarding a tail still derives the result from the
+    // RNG output in order. Depth-first over prefix lengths, longest first, with an explicit stack (a chunked fill
+    // can make tens of thousands of requests). If the search budget runs out the answer is "cannot refute".
+    let n = delivered.len();
+    let min_k = |i: usize| if matches!(delivered[i].0, Method::NextU32 | Method::NextU64) { 1usize } else { 0 };
+    // suffix[i] = bytes deliverable by chunks i..n
+    let mut suffix = vec![0usize; n + 1];
+    for i in (0..n).rev() {
+        suffix[i] = suffix[i + 1] + delivered[i].1.len();
+    }
+    let assign = |d: usize, pos: usize, from_k: usize| -> Option<usize> {
+        let b = delivered[d].1;
+        let mut k = from_k + 1;
+        while k > min_k(d) {
+            k -= 1;
+            // the rest of the result must still be coverable by the remaining chunks
+            if result.len() - pos - k > suffix[d + 1] {
+                return None;
+            }
+            if result[pos..pos + k] == b[..k] {
+                return Some(k);
+            }
         }
-        let (m, b) = d[0];
-        match m {
-            Method::FillBytes | Method::TryFillBytes => result.len() >= b.len() && &result[..b.len()] == b && go(&result[b.len()..], &d[1..]),
-            Method::NextU32 | Method::NextU64 => {
-                for k in (1..=b.len().min(result.len())).rev() {
-                    if result[..k] == b[..k] && go(&result[k..], &d[1..]) {
-                        return true;
-                    }
+        None
+    };
+    let mut ks: Vec<usize> = Vec::with_capacity(n);
+    let mut starts: Vec<usize> = Vec::with_capacity(n);
+    let mut pos = 0usize;
+    let mut steps = 0u64;
+    loop {
+        steps += 1;
+        if steps > 5_000_000 {
+            return true;
+        }
+        let d = ks.len();
+        let mut ok = false;
+        if d == n {
+            if pos == result.len() {
+                return true;
+            }
+        } else {
+            let max_k = delivered[d].1.len().min(result.len() - pos);
+            if let Some(k) = assign(d, pos, max_k) {
+                starts.push(pos);
+                ks.push(k);
+                pos += k;
+                ok = true;
+            }
+        }
+        if ok {
+            continue;
+        }
+        // backtrack to the deepest chunk that can still take a shorter prefix
+        loop {
+            let (Some(k), Some(p0)) = (ks.pop(), starts.pop()) else { return false };
+            let dd = ks.len();
+            if k > min_k(dd) {
+                if let Some(k2) = assign(dd, p0, k - 1) {
+                    starts.push(p0);
+                    ks.push(k2);
+                    pos = p0 + k2;
+                    break;
                 }
-                false
             }
         }
     }
-    go(result, delivered)
 }
 
 struct Cluster {
@@ -225,7 +274,7 @@ pub fn run(spec: &RunSpec, ty: &dyn TyObj, want_log: bool) -> RunResult {
                     steps += 1;
                     calls_total += 1;
                     let plan = [Plan::Fixed(w.clone())];
-                    let st = rng.begin_call(&plan);
+                    let st = rng.begin_call_vol(&plan, width);
                     let r = match *via {
                         0 => guarded(|| ty.gen_range(low, high, *inclusive, &mut rng, op.dynamic)),
                         1 => guarded(|| ty.sample_single(low, high, *inclusive, false, &mut rng, op.dynamic)),
@@ -348,7 +397,7 @@ pub fn run(spec: &RunSpec, ty: &dyn TyObj, want_log: bool) -> RunResult {
                     }
                     probes += 1;
                     let plan = [Plan::Fixed(w.to_vec())];
-                    let st = rng.begin_call(&plan);
+                    let st = rng.begin_call_vol(&plan, width);
                     let r = match *via {
                         0 => guarded(|| ty.gen_range(low, high, *inclusive, &mut rng, op.dynamic)),
                         1 => guarded(|| ty.sample_single(low, high, *inclusive, false, &mut rng, op.dynamic)),
@@ -573,7 +622,7 @@ pub fn run(spec: &RunSpec, ty: &dyn TyObj, want_log: bool) -> RunResult {
             OpKind::Gen => {
                 for (ci, plan) in op.calls.iter().enumerate() {
                     calls_total += 1;
-                    let start = rng.begin_call(plan);
+                    let start = rng.begin_call_vol(plan, width);
                     let r = guarded(|| ty.gen(&mut rng, op.dynamic));
                     let evs = &rng.events[start..];
                     bump(&mut counters, "op_gen");
@@ -599,7 +648,7 @@ pub fn run(spec: &RunSpec, ty: &dyn TyObj, want_log: bool) -> RunResult {
             OpKind::Fill { len, init, via } => {
                 for (ci, plan) in op.calls.iter().enumerate() {
                     calls_total += 1;
-                    let start = rng.begin_call(plan);
+                    let start = rng.begin_call_vol(plan, width * (*len).max(1));
                     let r = guarded(|| ty.fill(*len, *init, *via, &mut rng, op.dynamic));
                     let evs = &rng.events[start..];
                     bump(&mut counters, "op_fill");
@@ -675,7 +724,7 @@ pub fn run(spec: &RunSpec, ty: &dyn TyObj, want_log: bool) -> RunResult {
                 for (ci, plan) in op.calls.iter().enumerate() {
                     calls_total += 1;
                     let backup = sampler.as_ref().map(|s| s.dup());
-                    let start = rng.begin_call(plan);
+                    let start = rng.begin_call_vol(plan, width);
                     let r = match &op.kind {
                         OpKind::GenRange { .. } => guarded(|| ty.gen_range(low, high, *inclusive, &mut rng, op.dynamic)),
                         OpKind::Single { by_ref, .. } => guarded(|| ty.sample_single(low, high, *inclusive, *by_ref, &mut rng, op.dynamic)),
@@ -725,7 +774,7 @@ pub fn run(spec: &RunSpec, ty: &dyn TyObj, want_log: bool) -> RunResult {
                         if oks.len() >= 2 && oks.len() == evs.len() && evs.iter().all(|e| e.req == evs[0].req) {
                             if let Resp::Ok(w) = &evs[evs.len() - 1].resp {
                                 let mut probe = SimRng::new(0x0BAD_5EED, false);
-                                probe.begin_call(&[Plan::Fixed(w.clone())]);
+                                probe.begin_call_vol(&[Plan::Fixed(w.clone())], width);
                                 let r2 = match &op.kind {
                                     OpKind::GenRange { .. } => guarded(|| ty.gen_range(low, high, *inclusive, &mut probe, op.dynamic)),
                                     OpKind::Single { by_ref, .. } => guarded(|| ty.sample_single(low, high, *inclusive, *by_ref, &mut probe, op.dynamic)),
@@ -917,8 +966,8 @@ fn check_panic<T>(r: &Result<T, PanicClass>, evs: &[Event], oi: usize, ci: usize
             PanicClass::RngFillFailed if had_err => bump(counters, "probe_err_surfaced_as_rand_panic"),
             PanicClass::RngFillFailed => viol.push(Violation { class: "panic", op: oi, call: ci, detail: "\"Rng::fill failed\" although the RNG never reported an error".into() }),
             PanicClass::Budget => {
-                let fresh = evs.iter().filter(|e| e.src == Src::Fresh).count();
-                viol.push(Violation { class: "no_return", op: oi, call: ci, detail: format!("call did not return after {} draw requests ({} of them fresh uniform words)", evs.len(), fresh) });
+                let fresh: usize = evs.iter().filter(|e| e.src == Src::Fresh).map(|e| e.req as usize).sum();
+                viol.push(Violation { class: "no_return", op: oi, call: ci, detail: format!("call did not return after {} draw requests that delivered {} bytes of fresh uniform data (cut-off: 1000 x the call's natural volume)", evs.len(), fresh) });
             }
             // a panic in a call during which the RNG reported failure is the error surfacing (whatever the
             // message); nothing more is asserted about such a call
@@ -1000,4 +1049,28 @@ pub fn valid(spec: &RunSpec, ty: &dyn TyObj) -> bool {
         }
     }
     true
+}
+
+#[cfg(test)]
+mod tests {
+    use super::*;
+    use Method::*;
+    #[test]
+    fn refines_cases() {
+        let d = |v: &'static [(Method, &'static [u8])]| v.to_vec();
+        assert!(refines(b"abcd", &d(&[(TryFillBytes, b"abcd")])));
+        assert!(refines(b"abcd", &d(&[(TryFillBytes, b"ab"), (FillBytes, b"cd")])));
+        assert!(refines(b"ab", &d(&[(NextU32, b"a\0\0\0"), (NextU32, b"b\0\0\0")])));
+        assert!(refines(b"ab", &d(&[(TryFillBytes, b"abzz")]))); // over-read, tail discarded
+        assert!(refines(b"ab", &d(&[(TryFillBytes, b"zz"), (TryFillBytes, b"ab")]))); // a request wholly unused
+        assert!(!refines(b"ab", &d(&[(NextU32, b"zzzz"), (NextU32, b"abzz")]))); // a word request must contribute
+        assert!(!refines(b"ab\0", &d(&[(TryFillBytes, b"ab")]))); // a byte never delivered
+        assert!(!refines(b"ba", &d(&[(TryFillBytes, b"ab")])));
+        assert!(!refines(b"a", &d(&[])));
+        assert!(refines(b"", &d(&[])));
+        assert!(refines(b"aab", &d(&[(TryFillBytes, b"aa"), (TryFillBytes, b"ab")]))); // needs backtracking: "a" + "ab"
+        let many: Vec<(Method, &[u8])> = (0..100_000).map(|_| (TryFillBytes, &b"x"[..])).collect();
+        assert!(refines(&vec![b'x'; 100_000], &many));
+        assert!(!refines(&vec![b'x'; 100_001], &many));
+    }
 }
